@@ -45,6 +45,12 @@ def digest(sha, n):
     return "%s:%d" % (sha, n)
 
 
+def body_len(b):
+    if not b:
+        return 0
+    return b["len"] if "len" in b else len(b["hex"]) // 2
+
+
 def body_digest(b):
     raw = body_bytes(b)
     return digest(hashlib.sha256(raw).hexdigest(), len(raw))
@@ -76,6 +82,10 @@ def tcp_req(entry=0, seg="e", host="", headers=(), payload=b"hello"):
 def mk_resp(status=200, headers=(), body=None, chunked=False):
     hs = [[H("Content-Type"), H("text/plain")]] + [[H(a), H(b)] for a, b in headers]
     return {"status": status, "headers": hs, "body": body if body is not None else {"hex": H("ok")}, "chunked": chunked, "delay_ms": 0}
+
+
+def is_cut(rq):
+    return bool((rq.get("resp") or {}).get("cut_after"))
 
 
 def truth_views(nodes):
@@ -174,6 +184,15 @@ def corpus():
                      resp=mk_resp(404, [("Connection", "X-Rhop"), ("X-Rhop", "1"), ("Server", "up/1")], {"hex": ""})),
             http_req(0, method="PUT", target="/", body={"len": 65536, "seed": 5}, chunked_req=True, resp=mk_resp(502, [("X-From", "upstream")])),
             http_req(0, method="DELETE", target="/x?" , resp=mk_resp(500, [], {"len": 1000, "seed": 1}))]})
+    truth_views(cs[-1]["nodes"])
+    # T1 witness: the upstream dies in the middle of a chunked / Content-Length body, served locally and through a second node
+    cut_c = mk_resp(200, [("X-R", "1")], {"len": 5000, "seed": 7}, chunked=True); cut_c["cut_after"] = 1200
+    cut_l = mk_resp(200, [("X-R", "1")], {"len": 5000, "seed": 8}, chunked=False); cut_l["cut_after"] = 1200
+    cs.append({"id": "corpus-cut-body", "timeout_ms": NORMAL_TIMEOUT_MS, "kind": "consistent", "nodes": [
+        {"id": "n0", "upstreams": [], "view": []},
+        {"id": "n1", "upstreams": [up("u1", "e")], "view": []}],
+        "requests": [http_req(1, resp=mk_resp(200, [], {"len": 5000, "seed": 7}, chunked=True)),
+                     http_req(1, resp=cut_c), http_req(0, resp=cut_c), http_req(1, resp=cut_l), http_req(0, resp=cut_l)]})
     truth_views(cs[-1]["nodes"])
     # the access log's header allow/block lists redact the log, never the traffic (seeded change C08-2)
     for tag, al in (("block", {"disable": False, "req_block": ["authorization", "cookie", "x-piko-endpoint"], "req_allow": [], "resp_block": ["set-cookie", "x-r"], "resp_allow": []}),
@@ -327,6 +346,10 @@ def gen_http(rng, nodes, eps, rich):
             rh += [("Connection", "X-Rhop"), ("X-Rhop", "1")]
         rsize = rng.choice(BODY_SIZES[:-1])
         resp = mk_resp(rng.choice(STATUSES), rh, {"len": rsize, "seed": rng.randrange(1000)}, chunked=rng.random() < 0.3)
+        if rsize >= 1000 and rng.random() < 0.25:
+            # the upstream dies in the middle of the body (streamed / chunked or with a Content-Length)
+            resp["cut_after"] = rng.choice([1, 17, rsize // 2, rsize - 1])
+            resp["chunked"] = rng.random() < 0.7
     else:
         if rng.random() < 0.3:
             headers.append(rng.choice(REQ_HDRS))
@@ -403,6 +426,7 @@ def gen_cluster(rng, cid, profile):
             reqs.append(gen_tcp(rng, nodes, eps))
         else:
             reqs.append(gen_http(rng, nodes, eps, rng.random() < profile.get("p_rich", 0.3)))
+    reqs.sort(key=lambda r: 1 if is_cut(r) else 0)     # stable: cut responses last (they are left out of the Coq comparison)
     return {"id": cid, "timeout_ms": NORMAL_TIMEOUT_MS, "kind": kind, "nodes": nodes, "requests": reqs, "access_log": gen_access_log(rng)}
 
 
@@ -540,6 +564,11 @@ def fail(sig, why, **kw):
 
 def monitor_c01(cl, ri, rq, ob):
     ep = addressed(rq)
+    if is_cut(rq):
+        # an upstream that dies in the middle of its answer (C08's business): only the addressing clause applies
+        if ob.get("stamped") and U(ob["stamp_ep"]) != ep:
+            return fail("wrong-endpoint", "request addressed to endpoint %r was delivered to an upstream of endpoint %r" % (ep, U(ob["stamp_ep"])))
+        return None
     if rq["kind"] == "tcp" and ob["status"] == 101 and not ob.get("stamped"):
         # the stream was attached to an upstream that closed it at once: only legitimate for a scripted 'reset' upstream of this endpoint
         if not any(U(u_["ep"]) == ep and u_["beh"] == "reset" for n in cl["nodes"] for u_ in n["upstreams"]):
@@ -625,6 +654,14 @@ def monitor_c08(cl, ri, rq, ob):
     ep = addressed(rq)
     st = ob["status"]
     stamped = ob.get("stamped")
+    if is_cut(rq) and (stamped or ob.get("err")):
+        # the upstream died in the middle of its response body: whatever the client is shown, it must not be a COMPLETE
+        # response (that would be a truncated body passed off as the upstream's answer); a connection that ends before
+        # or inside the response is the honest outcome
+        if not ob.get("err"):
+            return fail("truncated-as-complete", "the upstream died after %d of %d body bytes, the client was shown a complete %d response with %d bytes"
+                        % (rq["resp"]["cut_after"], body_len(rq["resp"].get("body")), st, (ob.get("resp") or {}).get("body_len", -1)))
+        return None
     if ob.get("err"):
         return fail("hang", "client saw no complete HTTP answer: %s" % ob["err"])
     if ep == "" and not (st == 400 and not stamped):
@@ -828,6 +865,8 @@ def case_to_coq(cl, co):
                                                  coq_list([c_ventry(v) for v in dedup_view(n["view"])])))
     reqs = []
     for ri, (rq, ob) in enumerate(zip(cl["requests"], co["requests"])):
+        if is_cut(rq):
+            continue        # always last in a cluster; the model has no notion of a response that ends half way
         reqs.append("(mkPQ %d%%nat %s %s, %s)" % (rq["entry"], model_request(rq, ob["key"]), c_resp(rq), c_obs(rq, ob)))
     return "(mkPC %s %s)" % (coq_list(nodes), coq_list(reqs))
 
